@@ -122,6 +122,7 @@ func (wp *workerProc) kill() {
 func (p *Pool) loop() {
 	defer p.wg.Done()
 	var wp *workerProc
+	var hist []uint64
 	defer func() {
 		if wp != nil {
 			wp.kill()
@@ -149,6 +150,13 @@ func (p *Pool) loop() {
 		if out.Crashed != "" {
 			wp.kill()
 			wp = nil
+			if len(hist) > 200 {
+				hist = hist[len(hist)-200:]
+			}
+			out.PrevSeeds = append([]uint64(nil), hist...)
+			hist = nil
+		} else {
+			hist = append(hist, j.req.Seed)
 		}
 		j.resp <- out
 	}
